@@ -42,7 +42,7 @@ PLAN = {
     "C10": {"level": "exploration", "parts": [l2(160_000, 6_000_000), poll(16_000, 400_000)]},
     "C11": {"level": "exploration", "parts": [l2(160_000, 6_000_000), poll(16_000, 400_000)]},
     "C12": {"level": "exploration", "parts": [l2(160_000, 6_000_000), sched(400_000, 8_000_000)]},
-    "C13": {"level": "exploration", "parts": [l2(160_000, 6_000_000)]},
+    "C13": {"level": "exploration", "parts": [l2(160_000, 6_000_000), sched(300_000, 6_000_000)]},
     "C14": {"level": "exploration", "parts": [l2(96_000, 3_000_000), sched(300_000, 6_000_000)]},
     "C15": {"level": "exploration", "parts": [l2(160_000, 6_000_000), sched(400_000, 8_000_000)]},
     "C17": {"level": "exploration", "parts": [sched(800_000, 16_000_000)]},
